@@ -48,7 +48,8 @@ MANIFEST = dict(
 )
 
 NEGS = ["ConfigDecode_neg_unused.cfg", "ConfigDecode_neg_novalidate.cfg", "ConfigDecode_neg_weak.cfg",
-        "ConfigDecode_neg_unset.cfg", "ConfigDecode_neg_discard.cfg", "ConfigDecode_neg_stdin.cfg"]
+        "ConfigDecode_neg_unset.cfg", "ConfigDecode_neg_discard.cfg", "ConfigDecode_neg_stdin.cfg",
+        "ConfigDecode_neg_oneofwords.cfg"]
 INVS = ["NoPanic", "Conforms", "TStage", "TStrict", "TTyped", "TConstrained", "TPlaceholders", "TNoSpuriousError", "TValues"]
 
 
